@@ -32,14 +32,17 @@ def one(mid, props, tier, mem, procs):
     for pr in props:
         t0 = time.time()
         only = PLAN.get(mid, {}).get(pr) if USE_PLAN else None
+        mtier = tier
+        if only and only.startswith("thorough:"):
+            mtier, only = "thorough", only[len("thorough:"):]
         env = dict(os.environ, VERIF_REPO=repo, **({"VERIF_ONLY": only} if only else {}), VERIF_MEM_GB=str(mem), VERIF_PROCS=str(procs),
                    VERIF_EVIDENCE_DIR="/tmp/mev_" + mid, VERIF_TMP="/tmp", VERIF_FAIL_FAST="1", VERIF_LOGS_DIR="/tmp/mlogs_" + mid)
-        p = subprocess.run("cd %s && ./check %s --tier %s" % (VERIF, pr, tier), shell=True, capture_output=True, text=True, env=env)
+        p = subprocess.run("cd %s && ./check %s --tier %s" % (VERIF, pr, mtier), shell=True, capture_output=True, text=True, env=env)
         open(os.path.join(VERIF, "build", "mutants", "%s.%s.log" % (mid, pr)), "w").write(p.stdout + "\n--- stderr\n" + p.stderr[-3000:])
         lines = p.stdout.split("\n")
         viol = [l for l in lines if l.startswith("VIOLATION") or l.startswith("   ")]
         inc = [l for l in lines if l.startswith("INCONCLUSIVE")]
-        rec["runs"].append({"property": pr, "only": only, "exit": p.returncode, "violation_lines": viol[:12], "inconclusive": inc[:6], "wall_s": round(time.time() - t0)})
+        rec["runs"].append({"property": pr, "only": only, "tier": mtier, "exit": p.returncode, "violation_lines": viol[:12], "inconclusive": inc[:6], "wall_s": round(time.time() - t0)})
     shutil.rmtree(repo, ignore_errors=True)
     shutil.rmtree("/tmp/mev_" + mid, ignore_errors=True)
     shutil.rmtree("/tmp/mlogs_" + mid, ignore_errors=True)
